@@ -234,6 +234,56 @@ class Gen(object):
         return out
 
 
+    # ------------------------------------------------------------------------------------------ histories
+    def udt_history(self, pv, uid):
+        """Frames of one process in which the SAME (keyspace, type name, field names) is described with different field
+        types (type dropped and re-created / altered): -> (shape name, [(body, rm), ...]).  uid makes the type name
+        unique, so nothing decoded earlier in this process has cached a class for it."""
+        ks = self.r.choice([b'ks', b'Keyspace1', 'héllo'.encode('utf8')])
+        name = b'hist_udt_%d' % uid
+        k = self.r.choice([1, 2, 3])
+        names = [b'f%d' % i for i in range(k)]
+        variant = self.r.choice(['prim', 'prim', 'list', 'inner-udt', 'tuple'])
+        prims = self.prims(pv)
+
+        def wrap(code, idx):
+            if variant == 'list':
+                return ('TList', ('TPrim', code))
+            if variant == 'tuple':
+                return ('TTuple', [('TPrim', 9), ('TPrim', code)])
+            if variant == 'inner-udt':
+                return ('TUdt', ks, name + b'_inner%d' % idx, [('pair', b'g', ('TPrim', code))])
+            return ('TPrim', code)
+        codes1 = [self.r.choice(prims) for _ in range(k)]
+        codes2 = list(codes1)
+        j = self.r.randrange(k)
+        codes2[j] = self.r.choice([c for c in prims if c != codes1[j]])
+        defs = [codes1, codes2, codes1]
+
+        def udt(codes):
+            return ('TUdt', ks, name, [('pair', n, wrap(c, i)) for i, (n, c) in enumerate(zip(names, codes))])
+        place = self.r.choice(['rows', 'rows-nested', 'prepared-bind'] + (['prepared-result'] if pv >= 2 else []))
+
+        def frame(codes):
+            t = udt(codes)
+            if place == 'rows-nested':
+                t = self.r.choice([('TList', t), ('TMap', ('TPrim', 9), t), ('TTuple', [('TPrim', 3), t])])
+            if place in ('rows', 'rows-nested'):
+                cols = ('ColsGlobal', ks, b'tbl', [('pair', b'k', ('TPrim', 9)), ('pair', b'c', t)])
+                rows = [[self.cell(), self.cell()] for _ in range(self.r.choice([0, 1, 2]))]
+                return ('RResult', ('ResRows', ('mkrmeta', None, None, ('McSome', cols)), rows)), None
+            mid = some(self.blob(16)) if spec_metadata_id(pv) else None
+            pk = some([0]) if pv >= 4 else None
+            if place == 'prepared-bind':
+                bind = ('ColsEach', [('mkcol', ks, b'tbl', b'v', t)])
+                res = some(('mkrmeta', None, None, ('McNone', 0))) if pv >= 2 else None
+            else:
+                bind = ('ColsGlobal', ks, b'tbl', [('pair', b'k', ('TPrim', 9))])
+                res = some(('mkrmeta', None, None, ('McSome', ('ColsGlobal', ks, b'tbl', [('pair', b'c', t)]))))
+            return ('RResult', ('ResPrepared', self.blob(16), mid, pk, bind, res)), None
+        return 'udt_redefined.%s.%s' % (place, variant), [frame(c) for c in defs]
+
+
 COMBOS = [(t, w, p) for t in (False, True) for w in (False, True) for p in (False, True)]
 
 
